@@ -76,7 +76,14 @@ func (p *Program) cellArray(t types.Type) string {
 	return "Cell_" + sortSuffix(p.sortOf(t))
 }
 
+// sliceArray: the heap array holding the backing arrays of slices with this element type. One array per element sort,
+// except that slices of the schema's Type interface have their own: no []Type can share memory with a []interface{} or an
+// []error (Go has no conversion between slices of different element types), and keeping them apart means that building
+// an error (a []interface{} of format arguments, an append to []error) leaves every type list of the schema untouched.
 func (p *Program) sliceArray(elem types.Type) string {
+	if n, ok := elem.(*types.Named); ok && n.Obj().Pkg() == p.pkg.Types && n.Obj().Name() == "Type" {
+		return "SH_Iface$Type"
+	}
 	return "SH_" + sortSuffix(p.sortOf(elem))
 }
 
